@@ -531,6 +531,9 @@ func Run(sc Script, rep *kit.Report, cfg RunConfig) (st *State, env *Env, err er
 			}
 			rep.Class("reopen")
 			full = true
+			if serr := CheckSide(ctx, env.DB, st, where); serr != nil {
+				return st, env, serr
+			}
 		case "read":
 			for _, key := range st.M.Order {
 				if rerr := CheckRead(ctx, env.DB, st.M, key, op.A, op.B, where); rerr != nil {
@@ -551,6 +554,17 @@ func Run(sc Script, rep *kit.Report, cfg RunConfig) (st *State, env *Env, err er
 				return st, env, gerr
 			}
 			full = true
+		case "xcreate", "xwrite", "xrename", "xdelete":
+			if xerr := execSide(ctx, env, st, op); xerr != nil {
+				rep.Discard("side-op-error")
+				rep.Add("discard:"+op.Kind+":"+xerr.Error()[:min(70, len(xerr.Error()))], 1)
+				return st, env, nil
+			}
+			st.ApplySide(op)
+			rep.Class("side-" + op.Kind)
+			if serr := CheckSide(ctx, env.DB, st, where); serr != nil {
+				return st, env, serr
+			}
 		default:
 			return st, env, kit.Fail("script-bug", "unknown op %q", op.Kind)
 		}
@@ -582,6 +596,9 @@ func Run(sc Script, rep *kit.Report, cfg RunConfig) (st *State, env *Env, err er
 		if cerr := CheckAll(ctx, env.DB, st.M, "after final close+reopen", cfg.Limit); cerr != nil {
 			return st, env, cerr
 		}
+		if serr := CheckSide(ctx, env.DB, st, "after final close+reopen"); serr != nil {
+			return st, env, serr
+		}
 	}
 	for _, k := range st.M.Order {
 		if domains[k] >= 2 {
@@ -592,6 +609,93 @@ func Run(sc Script, rep *kit.Report, cfg RunConfig) (st *State, env *Env, err er
 		}
 	}
 	return st, env, nil
+}
+
+// SideSpec is the cesium channel of a side channel.
+func SideSpec(st *State, key uint32, kind, name string) cesium.Channel {
+	ch := cesium.Channel{Key: key, Name: name}
+	switch kind {
+	case "virtual":
+		ch.Virtual, ch.DataType = true, telem.Float32T
+	case "data":
+		ch.DataType = telem.Int64T
+		for _, k := range st.M.Order {
+			if st.M.Chans[k].Spec.IsIndex {
+				ch.Index = k
+				break
+			}
+		}
+	default:
+		ch.IsIndex, ch.DataType = true, telem.TimeStampT
+	}
+	return ch
+}
+
+func execSide(ctx context.Context, env *Env, st *State, op Op) error {
+	switch op.Kind {
+	case "xcreate":
+		return env.DB.CreateChannel(ctx, SideSpec(st, op.Key, op.XKind, op.Name))
+	case "xwrite":
+		stamps := make([]telem.TimeStamp, len(op.TS))
+		for i, v := range op.TS {
+			stamps[i] = telem.TimeStamp(v)
+		}
+		return env.DB.WriteSeries(ctx, op.Key, telem.TimeStamp(op.Start), telem.NewSeries(stamps))
+	case "xrename":
+		return env.DB.RenameChannel(ctx, op.Key, op.Name)
+	default:
+		if len(op.Keys) == 1 {
+			return env.DB.DeleteChannel(op.Keys[0])
+		}
+		return env.DB.DeleteChannels(op.Keys)
+	}
+}
+
+// SideContent reads the samples of a side index channel.
+func SideContent(ctx context.Context, db *cesium.DB, key uint32) ([]int64, error) {
+	vals, err := ReadChannel(ctx, db, tsm.ChannelSpec{Key: key, IsIndex: true, DataType: "timestamp"}, 0, 1<<62)
+	if err != nil {
+		return nil, err
+	}
+	out := make([]int64, len(vals))
+	for i, v := range vals {
+		for b := 7; b >= 0; b-- {
+			out[i] = out[i]<<8 | int64(v[b])
+		}
+	}
+	return out, nil
+}
+
+// CheckSide compares every side channel with its expected state: present with the expected
+// name, kind and samples, or absent.
+func CheckSide(ctx context.Context, db *cesium.DB, st *State, where string) error {
+	for _, k := range st.SideKeys() {
+		c := st.Side[k]
+		ch, err := db.RetrieveChannel(ctx, k)
+		if !c.Exists {
+			if err == nil {
+				return kit.Fail("deleted-channel-still-present", "%s: side channel %d (%s) was deleted but RetrieveChannel returns %q", where, k, c.Kind, ch.Name)
+			}
+			continue
+		}
+		if err != nil {
+			return kit.Fail("channel-missing", "%s: side channel %d (%s, %q) is missing: %v", where, k, c.Kind, c.Name, err)
+		}
+		want := SideSpec(st, k, c.Kind, c.Name)
+		if ch.Name != want.Name || ch.DataType != want.DataType || ch.IsIndex != want.IsIndex || ch.Virtual != want.Virtual || (c.Kind == "data" && ch.Index != want.Index) {
+			return kit.Fail("channel-metadata-mismatch", "%s: side channel %d is %+v, expected name=%q dt=%s index=%d is_index=%v virtual=%v", where, k, ch, want.Name, want.DataType, want.Index, want.IsIndex, want.Virtual)
+		}
+		if c.Kind == "index" {
+			got, rerr := SideContent(ctx, db, k)
+			if rerr != nil {
+				return kit.Fail("read-error", "%s: reading side channel %d: %v", where, k, rerr)
+			}
+			if !sameTS(got, c.TS) {
+				return kit.Fail("read-mismatch", "%s: side channel %d returned %v, expected %v", where, k, got, c.TS)
+			}
+		}
+	}
+	return nil
 }
 
 // barrier waits until every asynchronous (Sync=false) auto-committing writer has processed
